@@ -804,6 +804,9 @@ def _pf(spec, space):
         return _pf(spec[2], space) * spec[1]
     if k == 'trans':
         return _pf(spec[2], space).translated(_el(space, spec[1]))
+    if k == 'nlsq':          # ||A(x) - b||^2 with a NONLINEAR operator A: the gradient depends on the point
+        A = _pop(spec[1])
+        return S.L2NormSquared(A.range).translated(spec[2]) * A
     if k == 'l2sqdata':      # ||A x - b||^2 , smooth term with a gradient
         A = odl.MatrixOperator(np.array(spec[1], dtype=float), domain=space, range=odl.rn(len(spec[1])))
         return S.L2NormSquared(A.range).translated(spec[2]) * A
@@ -839,6 +842,15 @@ def _pop(d):
         return odl.BroadcastOperator(odl.MatrixOperator(M, domain=X, range=odl.rn(M.shape[0])), odl.IdentityOperator(X))
     if k == 'multiply':
         return odl.MultiplyOperator(odl.rn(len(d[1])).element(d[1]))
+    # nonlinear operators whose derivative(x) captures the value of x
+    if k == 'matsq':      # x -> M (x . x)
+        M = np.array(d[1], dtype=float)
+        X = odl.rn(M.shape[1])
+        return odl.MatrixOperator(M, domain=X, range=odl.rn(M.shape[0])) * odl.PowerOperator(X, 2)
+    if k == 'sqmat':      # x -> (M x) . (M x)
+        M = np.array(d[1], dtype=float)
+        Y = odl.rn(M.shape[0])
+        return odl.PowerOperator(Y, 2) * odl.MatrixOperator(M, domain=odl.rn(M.shape[1]), range=Y)
     raise ValueError(d)
 
 
@@ -898,6 +910,8 @@ def probe_eval(d):
         tr = []
         return tr, (lambda x: tr.append(_flat(x)))
 
+    if kind == 'contract':
+        return _contract(d)
     if kind == 'admm-vs-simple':
         L = _pop(d['op'])
         f, g = _pf(d['f'], L.domain), _pf(d['g'], L.range)
@@ -1117,6 +1131,461 @@ def probe_eval(d):
     return ok, [g.tolist() for g in got], [w.tolist() for w in want]
 
 
+# ---------------------------------------------------------------- NumPy transcriptions
+def _np_op(desc):
+    """(A, dadj) with dadj(x, y) = A'(x)^* y, or None"""
+    k = desc[0]
+    if k == 'id':
+        return (lambda x: x.copy()), (lambda x, y: y.copy())
+    if k in ('rn', 'matsq', 'sqmat'):
+        M = np.array(desc[1], dtype=float)
+        if k == 'rn':
+            return (lambda x: M @ x), (lambda x, y: M.T @ y)
+        if k == 'matsq':
+            return (lambda x: M @ (x * x)), (lambda x, y: 2.0 * x * (M.T @ y))
+        return (lambda x: (M @ x) ** 2), (lambda x, y: M.T @ (2.0 * (M @ x) * y))
+    return None
+
+
+def _np_prox(spec, sigma, a):
+    """prox of sigma * spec at a, or None"""
+    k = spec[0]
+    if k == 'zero':
+        return a.copy()
+    if k == 'l1':
+        return np.sign(a) * np.maximum(np.abs(a) - sigma, 0.0)
+    if k == 'l2sq':
+        return a / (1.0 + 2.0 * sigma)
+    if k == 'box':
+        return np.clip(a, spec[1], spec[2])
+    if k == 'nonneg':
+        return np.maximum(a, 0.0)
+    if k == 'scaled' and spec[2][0] in ('l1', 'l2sq'):
+        return _np_prox(spec[2], sigma * spec[1], a)
+    if k == 'trans':
+        c = np.asarray(spec[1], dtype=float)
+        r = _np_prox(spec[2], sigma, a - c)
+        return None if r is None else c + r
+    return None
+
+
+def _np_grad(spec, a):
+    k = spec[0]
+    if k == 'zero':
+        return np.zeros_like(a)
+    if k == 'l2sq':
+        return 2.0 * a
+    if k == 'scaled':
+        r = _np_grad(spec[2], a)
+        return None if r is None else spec[1] * r
+    if k == 'trans':
+        return _np_grad(spec[2], a - np.asarray(spec[1], dtype=float))
+    if k == 'l2sqdata':
+        M = np.array(spec[1], dtype=float)
+        return 2.0 * (M.T @ (M @ a - np.asarray(spec[2], dtype=float)))
+    if k == 'nlsq':
+        op = _np_op(spec[1])
+        if op is None:
+            return None
+        A, dadj = op
+        return dadj(a, 2.0 * (A(a) - np.asarray(spec[2], dtype=float)))
+    return None
+
+
+def _np_ccgrad(spec, y):
+    """gradient of the conjugate (strongly convex quadratic members)"""
+    if spec[0] == 'l2sq':
+        return y / 2.0
+    if spec[0] == 'scaled' and spec[2][0] == 'l2sq':
+        return y / (2.0 * spec[1])
+    if spec[0] == 'trans':
+        r = _np_ccgrad(spec[2], y)
+        return None if r is None else r + np.asarray(spec[1], dtype=float)
+    return None
+
+
+def _np_project(p, x):
+    if p is None:
+        return x
+    if p[0] == 'nonneg':
+        return np.maximum(x, 0.0)
+    return np.clip(x, p[1], p[2])
+
+
+class _NoRef(Exception):
+    pass
+
+
+def _need(v):
+    if v is None:
+        raise _NoRef()
+    return v
+
+
+def _np_contract(d):
+    """callback-observed iterates of the DOCUMENTED iteration of d['solver'] in plain NumPy, or None"""
+    try:
+        sv, N = d['solver'], d['niter']
+        x = np.array(d['x0'], dtype=float)
+        out = []
+        if sv == 'landweber':
+            A, dadj = _need(_np_op(d['op']))
+            rhs = np.array(d['rhs'], dtype=float)
+            for _ in range(N):
+                x = _np_project(d.get('proj'), x - d['omega'] * dadj(x, A(x) - rhs))
+                out.append(x.copy())
+        elif sv == 'kaczmarz':
+            ops = [_need(_np_op(o)) for o in d['ops']]
+            for _ in range(N):
+                for (A, dadj), r, w in zip(ops, d['rhs'], d['omega']):
+                    x = _np_project(d.get('proj'), x - w * dadj(x, A(x) - np.array(r, dtype=float)))
+                out.append(x.copy())
+        elif sv == 'steepest_descent':
+            for _ in range(N):
+                g = _need(_np_grad(d['f'], x))
+                if abs(-float(g @ g)) < d['tol']:
+                    break
+                x = _np_project(d.get('proj'), x - d['step'] * g)
+                out.append(x.copy())
+        elif sv == 'proximal_gradient':
+            for _ in range(N):
+                p = _need(_np_prox(d['f'], d['gamma'], x - d['gamma'] * _need(_np_grad(d['g'], x))))
+                x = (1.0 - d['lam']) * x + d['lam'] * p
+                out.append(x.copy())
+        elif sv == 'accelerated_proximal_gradient':
+            y, t = x.copy(), 1.0
+            for _ in range(N):
+                t, t_old = (1.0 + np.sqrt(1.0 + 4.0 * t ** 2)) / 2.0, t
+                alpha = (t_old - 1.0) / t
+                tmp = y - d['gamma'] * _need(_np_grad(d['g'], y))
+                y = x
+                x = _need(_np_prox(d['f'], d['gamma'], tmp))
+                y = (1.0 + alpha) * x - alpha * y
+                out.append(x.copy())
+        elif sv == 'dca':
+            for _ in range(N):
+                x = _need(_np_ccgrad(d['f'], _need(_np_grad(d['g'], x))))
+                out.append(x.copy())
+        elif sv == 'prox_dca':
+            for _ in range(N):
+                x = _need(_np_prox(d['f'], d['gamma'], x + d['gamma'] * _need(_np_grad(d['g'], x))))
+                out.append(x.copy())
+        elif sv == 'doubleprox_dc':
+            K, kadj = _need(_np_op(d['op']))
+            y = np.array(d['y0'], dtype=float)
+            for _ in range(N):
+                x = _need(_np_prox(d['f'], d['gamma'], x + d['gamma'] * (kadj(x, y) - _need(_np_grad(d['phi'], x)))))
+                y = _need(_np_ccprox(d['g'], d['mu'], y + d['mu'] * K(x)))
+                out.append(x.copy())
+        elif sv == 'pdhg':
+            L, ladj = _need(_np_op(d['op']))
+            xr, y = x.copy(), np.zeros(len(d['op'][1]) if d['op'][0] != 'id' else len(x))
+            for _ in range(N):
+                x_old = x
+                y = _need(_np_ccprox(d['g'], d['sigma'], y + d['sigma'] * L(xr)))
+                x = _need(_np_prox(d['f'], d['tau'], x - d['tau'] * ladj(x, y)))
+                xr = (1.0 + d['theta']) * x - d['theta'] * x_old
+                out.append(x.copy())
+        elif sv in ('mlem', 'osmlem'):
+            Ms = [np.array(o[1], dtype=float) for o in d['ops']]
+            eps = 1e-8
+            sens = d.get('sens')
+            if sens is None:
+                sv_ = [np.maximum(M.T @ np.ones(M.shape[0]), eps) for M in Ms]
+            elif isinstance(sens, (int, float)):
+                sv_ = [float(sens)] * len(Ms)
+            else:
+                sv_ = [np.array(s_, dtype=float) for s_ in sens]
+            for _ in range(N):
+                for M, dat, s_ in zip(Ms, d['data'], sv_):
+                    x = x * ((M.T @ (np.array(dat, dtype=float) / np.maximum(M @ x, eps))) / s_)
+                    out.append(x.copy())
+        else:
+            return None
+        return out
+    except _NoRef:
+        return None
+
+
+def _snap(objs):
+    """deep copy of the VALUES of argument objects: elements, arrays, floats, (nested) lists of them"""
+    import odl
+    if isinstance(objs, dict):
+        return {k: _snap(v) for k, v in objs.items()}
+    if isinstance(objs, (list, tuple)):
+        return [_snap(v) for v in objs]
+    if isinstance(objs, odl.Operator) and hasattr(objs, 'matrix'):
+        return np.array(objs.matrix, dtype=float, copy=True)
+    if isinstance(objs, odl.Operator):
+        return None
+    if isinstance(objs, odl.set.space.LinearSpaceElement):
+        return _flat(objs)
+    if isinstance(objs, np.ndarray):
+        return objs.copy()
+    return objs
+
+
+def _same(a, b):
+    if isinstance(a, dict):
+        return all(_same(a[k], b[k]) for k in a)
+    if isinstance(a, list):
+        return isinstance(b, list) and len(a) == len(b) and all(_same(u, v) for u, v in zip(a, b))
+    if isinstance(a, np.ndarray):
+        return isinstance(b, np.ndarray) and a.shape == b.shape and bool(np.array_equal(a, b, equal_nan=True))
+    return a == b or (a is None and b is None)
+
+
+def _contract(d):
+    """The contract of one solver on one problem:
+       (1) its callback-observed iterates are those of an independent NumPy transcription of the documented
+           iteration (operators / functionals may be NONLINEAR: derivatives and gradients capture the point);
+       (2) a call modifies nothing but x (and the state it documents: x_relax, y of pdhg; y of doubleprox_dc):
+           every other argument object -- rhs, data, lists such as sensitivities or omega, matrices -- compares
+           equal to a deep copy taken before the call;
+       (3) for the resumable solvers: n1 iterations, then N - n1 with THE SAME argument objects, for every n1
+           (the first call may have niter = 0), ends where one call with N ends."""
+    import odl
+    from odl.solvers.nonsmooth.admm import admm_linearized
+    from odl.solvers.nonsmooth.alternating_dual_updates import adupdates
+    from odl.solvers.nonsmooth.difference_convex import doubleprox_dc, dca, prox_dca
+    from odl.solvers.nonsmooth.primal_dual_hybrid_gradient import pdhg
+    from odl.solvers.nonsmooth.proximal_gradient_solvers import proximal_gradient, accelerated_proximal_gradient
+    from odl.solvers.nonsmooth.douglas_rachford import douglas_rachford_pd
+    from odl.solvers.iterative.iterative import landweber, kaczmarz
+    from odl.solvers.iterative.statistical import mlem, osmlem
+    from odl.solvers.smooth.gradient import steepest_descent
+    sv, N = d['solver'], d['niter']
+    args = {}           # the argument objects, created ONCE and passed to every call
+    resumable = True
+    nstate = 1
+    if sv == 'landweber':
+        A = _pop(d['op'])
+        args = {'op': A, 'rhs': _el(A.range, d['rhs']), 'omega': d['omega']}
+        pr = _projection(d.get('proj'))
+        dom = A.domain
+        call = lambda st, it, cb=None: landweber(args['op'], st[0], args['rhs'], it, omega=args['omega'],
+                                                projection=pr, callback=cb)
+    elif sv == 'kaczmarz':
+        ops = [_pop(o) for o in d['ops']]
+        args = {'ops': ops, 'rhs': [_el(o.range, r) for o, r in zip(ops, d['rhs'])], 'omega': list(d['omega'])}
+        pr = _projection(d.get('proj'))
+        dom = ops[0].domain
+        call = lambda st, it, cb=None: kaczmarz(args['ops'], st[0], args['rhs'], it, omega=args['omega'],
+                                               projection=pr, callback=cb)
+    elif sv == 'steepest_descent':
+        dom = odl.rn(len(d['x0']))
+        args = {'f': _pf(d['f'], dom)}
+        pr = _projection(d.get('proj'))
+        call = lambda st, it, cb=None: steepest_descent(args['f'], st[0], line_search=d['step'], maxiter=it,
+                                                       tol=d['tol'], projection=pr, callback=cb)
+    elif sv in ('proximal_gradient', 'accelerated_proximal_gradient'):
+        dom = odl.rn(len(d['x0']))
+        args = {'f': _pf(d['f'], dom), 'g': _pf(d['g'], dom)}
+        if sv == 'proximal_gradient':
+            call = lambda st, it, cb=None: proximal_gradient(st[0], args['f'], args['g'], d['gamma'], it, callback=cb,
+                                                            lam=d['lam'])
+        else:
+            resumable = False
+            call = lambda st, it, cb=None: accelerated_proximal_gradient(st[0], args['f'], args['g'], d['gamma'], it,
+                                                                        callback=cb)
+    elif sv in ('dca', 'prox_dca'):
+        dom = odl.rn(len(d['x0']))
+        args = {'f': _pf(d['f'], dom), 'g': _pf(d['g'], dom)}
+        if sv == 'dca':
+            call = lambda st, it, cb=None: dca(st[0], args['f'], args['g'], it, callback=cb)
+        else:
+            call = lambda st, it, cb=None: prox_dca(st[0], args['f'], args['g'], it, d['gamma'], callback=cb)
+    elif sv == 'doubleprox_dc':
+        K = _pop(d['op'])
+        dom = K.domain
+        args = {'K': K, 'f': _pf(d['f'], dom), 'g': _pf(d['g'], K.range), 'phi': _pf(d['phi'], dom)}
+        nstate = 2
+        call = lambda st, it, cb=None: doubleprox_dc(st[0], st[1], args['f'], args['phi'], args['g'], args['K'], it,
+                                                    d['gamma'], d['mu'], callback=cb)
+    elif sv == 'pdhg':
+        L = _pop(d['op'])
+        dom = L.domain
+        args = {'L': L, 'f': _pf(d['f'], dom), 'g': _pf(d['g'], L.range)}
+        nstate = 3
+        call = lambda st, it, cb=None: pdhg(st[0], args['f'], args['g'], args['L'], it, d['tau'], d['sigma'],
+                                           theta=d['theta'], x_relax=st[1], y=st[2], callback=cb)
+    elif sv in ('mlem', 'osmlem'):
+        ops = [_pop(o) for o in d['ops']]
+        dom = ops[0].domain
+        args = {'ops': ops, 'data': [_el(o.range, r) for o, r in zip(ops, d['data'])]}
+        kw = {}
+        sens = d.get('sens')
+        if sens is not None:
+            args['sens'] = sens if isinstance(sens, (int, float)) else [dom.element(s_) for s_ in sens]
+            kw = {'sensitivities': None}
+        if sv == 'mlem':
+            def call(st, it, cb=None):
+                k2 = {'sensitivities': args['sens'][0] if (isinstance(args.get('sens'), list) and d.get('sens_as') == 'element')
+                      else args['sens']} if kw else {}
+                mlem(args['ops'][0], st[0], args['data'][0], it, callback=cb, **k2)
+        else:
+            def call(st, it, cb=None):
+                k2 = {'sensitivities': args['sens']} if kw else {}
+                osmlem(args['ops'], st[0], args['data'], it, callback=cb, **k2)
+    elif sv == 'admm_linearized':
+        L = _pop(d['op'])
+        dom = L.domain
+        args = {'L': L, 'f': _pf(d['f'], dom), 'g': _pf(d['g'], L.range)}
+        resumable = False
+        call = lambda st, it, cb=None: admm_linearized(st[0], args['f'], args['g'], args['L'], d['tau'], d['sigma'], it,
+                                                      callback=cb)
+    elif sv == 'adupdates':
+        Ls = [_pop(o) for o in d['ops']]
+        dom = Ls[0].domain
+        args = {'L': Ls, 'g': [_pf(s_, Li.range) for s_, Li in zip(d['gs'], Ls)],
+                'inner': [_inner_step(v, Li.range) for v, Li in zip(d['inner'], Ls)]}
+        resumable = False
+        call = lambda st, it, cb=None: adupdates(st[0], args['g'], args['L'], d['stepsize'], args['inner'], it,
+                                                callback=cb)
+    elif sv == 'douglas_rachford_pd':
+        Ls = [_pop(o) for o in d['ops']]
+        dom = Ls[0].domain
+        args = {'L': Ls, 'f': _pf(d['f'], dom), 'g': [_pf(s_, Li.range) for s_, Li in zip(d['gs'], Ls)],
+                'sigma': list(d['sigma'])}
+        resumable = False
+        call = lambda st, it, cb=None: douglas_rachford_pd(st[0], args['f'], args['g'], args['L'], it, tau=d['tau'],
+                                                          sigma=args['sigma'], callback=cb)
+    else:
+        raise ValueError(sv)
+
+    def init():
+        x = _el(dom, d['x0'])
+        if nstate == 1:
+            return [x]
+        if nstate == 2:
+            return [x, _el(args['K'].range, d['y0'])]
+        return [x, x.copy(), args['L'].range.zero()]
+
+    before = _snap(args)
+    st = init()
+    tr = []
+    call(st, N, lambda v: tr.append(_flat(v)))
+    why = []
+    if not _same(before, _snap(args)):
+        why.append('an argument other than x was modified by the call')
+    want = [_flat(v) for v in st]
+    ref = _np_contract(d)
+    sc = _scale(tr, *want)
+    if ref is not None and np.all(np.isfinite(np.array(ref, dtype=float))) if ref else ref is not None:
+        if not (len(tr) == len(ref) and _close(tr, ref, sc)):
+            why.append('iterates differ from the NumPy transcription of the documented iteration')
+            return False, {'why': why, 'iterates': np.array(tr).tolist()}, {'numpy': np.array(ref).tolist()}
+    got = want
+    if resumable:
+        for n1 in range(N + 1):
+            st = init()
+            call(st, n1)
+            if not _same(before, _snap(args)):
+                why.append('an argument other than x was modified by a call with niter=%d' % n1)
+            call(st, N - n1)
+            got = [_flat(v) for v in st]
+            if not all(_close(a, b, sc) for a, b in zip(got, want)):
+                why.append('%d then %d iterations with the same argument objects differ from %d at once' % (n1, N - n1, N))
+            if why:
+                break
+    return (not why), {'why': why, 'final': [g.tolist() for g in got]}, {'final': [w.tolist() for w in want]}
+
+
+def _contract_probes(rng, count):
+    """random problems of the contract family; nonlinear operators / functionals in about half of them"""
+    out = []
+    solvers = ['landweber', 'kaczmarz', 'steepest_descent', 'proximal_gradient', 'accelerated_proximal_gradient', 'dca',
+               'prox_dca', 'doubleprox_dc', 'pdhg', 'mlem', 'osmlem', 'osmlem', 'admm_linearized', 'adupdates',
+               'douglas_rachford_pd']
+    npfam = [['zero'], ['l1'], ['l2sq'], ['box', -1.0, 2.0], ['nonneg'], ['scaled', 0.5, ['l1']], ['scaled', 2.0, ['l2sq']]]
+
+    def small(n):
+        return [rng.choice([-1.0, -0.5, 0.5, 1.0, 0.25]) for _ in range(n)]
+
+    def nlop(m, n):
+        k = rng.choice(['rn', 'matsq', 'sqmat', 'matsq'])
+        return [k, _mat(rng, m, n, -1, 1) if k != 'rn' else _mat(rng, m, n)]
+
+    def smooth(n):
+        k = rng.choice(['nlsq', 'nlsq', 'l2sqdata', 'l2sq'])
+        if k == 'nlsq':
+            m = rng.randint(1, 3)
+            return ['nlsq', [rng.choice(['matsq', 'sqmat']), _mat(rng, m, n, -1, 1)], small(m)]
+        if k == 'l2sqdata':
+            m = rng.randint(1, 3)
+            return ['l2sqdata', _mat(rng, m, n), small(m)]
+        return ['scaled', rng.choice([0.5, 2.0]), ['l2sq']]
+
+    # fixed members: mlem with ONE element as sensitivities (the documented form); landweber with x -> M (x.x)
+    out.append(({'kind': 'contract', 'solver': 'mlem', 'x0': [1.0, 1.0], 'niter': 2, 'ops': [['rn', [[1.0, 2.0], [0.0, 1.0]]]],
+                 'data': [[3.0, 1.0]], 'sens': [[0.5, 4.0]], 'sens_as': 'element'}, 'contract-mlem-sensitivities=element'))
+    out.append(({'kind': 'contract', 'solver': 'landweber', 'x0': [1.0, -0.5], 'niter': 3, 'op': ['matsq', [[1.0, 1.0], [0.0, -1.0]]],
+                 'rhs': [0.5, 0.25], 'omega': 0.0625, 'proj': None}, 'contract-landweber-matsq'))
+    for i in range(count):
+        sv = solvers[i % len(solvers)]
+        n = rng.randint(1, 3)
+        N = rng.choice([2, 3, 4, 5])
+        d = {'kind': 'contract', 'solver': sv, 'x0': small(n), 'niter': N}
+        tag = ''
+        if sv == 'landweber':
+            m = rng.randint(1, 3)
+            d.update(op=nlop(m, n), rhs=small(m), omega=rng.choice([0.03125, 0.0625]),
+                     proj=rng.choice([None, ['nonneg'], ['box', -1.0, 2.0]]))
+            tag = d['op'][0]
+        elif sv == 'kaczmarz':
+            ms = [rng.randint(1, 2) for _ in range(rng.choice([1, 2, 3]))]
+            d.update(ops=[nlop(m, n) for m in ms], rhs=[small(m) for m in ms],
+                     omega=[rng.choice([0.03125, 0.0625]) for _ in ms], proj=rng.choice([None, ['nonneg']]))
+            tag = '+'.join(o[0] for o in d['ops'])
+        elif sv == 'steepest_descent':
+            d.update(f=smooth(n), step=rng.choice([0.015625, 0.03125]), tol=rng.choice([1e-16, 0.001]),
+                     proj=rng.choice([None, ['box', -1.0, 2.0]]))
+            tag = d['f'][0]
+        elif sv in ('proximal_gradient', 'accelerated_proximal_gradient', 'prox_dca'):
+            d.update(f=rng.choice(npfam), g=smooth(n), gamma=rng.choice([0.015625, 0.03125]), lam=rng.choice([1.0, 0.5, 1.5]))
+            tag = d['g'][0]
+        elif sv == 'dca':
+            d.update(f=['scaled', rng.choice([1.0, 2.0, 4.0]), ['l2sq']], g=smooth(n))
+            tag = d['g'][0]
+        elif sv == 'doubleprox_dc':
+            m = rng.randint(1, 3)
+            d.update(op=['rn', _mat(rng, m, n)], f=rng.choice(npfam), g=rng.choice(npfam), phi=smooth(n),
+                     gamma=rng.choice([0.015625, 0.03125]), mu=0.25, y0=small(m))
+            tag = d['phi'][0]
+        elif sv == 'pdhg':
+            m = rng.randint(1, 3)
+            d.update(op=nlop(m, n), f=rng.choice(npfam), g=rng.choice(npfam), tau=0.0625, sigma=0.0625,
+                     theta=rng.choice([1, 0.5, 0]))
+            tag = d['op'][0]
+        elif sv in ('mlem', 'osmlem'):
+            ms = [rng.randint(1, 3) for _ in range(1 if sv == 'mlem' else rng.choice([2, 3]))]
+            d.update(ops=[['rn', _mat(rng, m, n, 0, 3)] for m in ms], data=[[float(rng.randint(0, 5)) for _ in range(m)] for m in ms],
+                     x0=[rng.choice([0.5, 1.0, 2.0]) for _ in range(n)])
+            mode = rng.choice(['default', 'scalar', 'list', 'list'])
+            if mode == 'scalar':
+                d['sens'] = rng.choice([0.5, 2.0, 4.0])
+            elif mode == 'list':
+                d['sens'] = [[rng.choice([0.5, 1.0, 2.0, 4.0]) for _ in range(n)] for _ in ms]
+                if sv == 'mlem' and rng.random() < 0.5:      # the documented form for mlem: ONE domain element
+                    d['sens_as'] = 'element'
+                    mode = 'element'
+            tag = 'sensitivities=' + mode
+        elif sv == 'admm_linearized':
+            m = rng.randint(1, 3)
+            d.update(op=['rn', _mat(rng, m, n)], f=rng.choice(npfam), g=rng.choice(npfam), tau=0.25, sigma=2.0)
+        elif sv == 'adupdates':
+            ms = [rng.randint(1, 2) for _ in range(rng.choice([1, 2]))]
+            d.update(ops=[['rn', _mat(rng, m, n)] for m in ms], gs=[rng.choice(ARRAY_SIGMA_OK[:7]) for _ in ms],
+                     inner=[rng.choice([_dy(rng), ['list', [_dy(rng) for _ in range(m)]]]) for m in ms],
+                     stepsize=rng.choice([0.5, 1.0, 2.5]))
+        elif sv == 'douglas_rachford_pd':
+            ms = [rng.randint(1, 2) for _ in range(rng.choice([1, 2]))]
+            d.update(ops=[['rn', _mat(rng, m, n)] for m in ms], f=rng.choice(npfam), gs=[rng.choice(npfam) for _ in ms],
+                     tau=0.25, sigma=[_dy(rng) for _ in ms])
+        out.append((d, 'contract-%s%s' % (sv, ('-' + tag) if tag else '')))
+    return out
+
+
 def _inner_step(v, ran):
     """inner step size of adupdates: a float, or ['list'|'array'|'element', values] (np.isscalar false)"""
     if isinstance(v, (list, tuple)):
@@ -1313,6 +1782,10 @@ def probes(rng, tier):
             ok, det = False, {'raised': '%s: %s' % (type(e).__name__, str(e)[:300])}
         out.append(C.Probe(bool(ok), key, what, _replay(d), det))
 
+    # contract family: NumPy transcription incl. nonlinear operators, unchanged inputs, same objects on continuation
+    for d, key in _contract_probes(rng, 45 * reps):
+        add(d, key, 'iterates = NumPy transcription of the documented iteration; no argument but x is modified; '
+                    'n then m iterations with the same argument objects = n+m')
     for _ in range(25 * reps):
         op, n, m, ps = _rand_op(rng, tier)
         f, g = _rand_spec(rng, n, 'prox'), _rand_spec(rng, m, 'prox', ps)
@@ -1474,6 +1947,11 @@ def search(rng, broken):
     it names.  Returns the first failing probe (a concrete replay) or None."""
     known = C.load_findings(PID)
     kinds = []
+    # whatever broke (also a translator that failed closed): the contract family at the thorough volume
+    for dd, key in _contract_probes(rng, 45 * 6):
+        p = _try(dd, key, 'contract of the solver: NumPy transcription, unchanged inputs, continuation with the same objects')
+        if not p.ok and p.key not in known:
+            return p
     for kind, what, detail in broken:
         if kind == 'correspondence' and isinstance(detail, dict) and isinstance(detail.get('probe'), dict):
             d = detail['probe']
@@ -1502,11 +1980,11 @@ def search(rng, broken):
             p = _try(dd, key, 'adupdates vs adupdates_simple vs NumPy, varied step sizes')
             if not p.ok and p.key not in known:
                 return p
-    # focused family: all probes of the thorough tier that belong to the named clauses
-    if kinds:
-        for p in probes(rng, 'thorough'):
-            if not p.ok and p.key not in known and any(p.key.startswith(k) for k in kinds):
-                return p
+    # all probes of the thorough tier (those of the named clauses first)
+    allp = probes(rng, 'thorough')
+    for p in sorted(allp, key=lambda q: not any(q.key.startswith(k) for k in kinds)):
+        if not p.ok and p.key not in known:
+            return p
     return None
 
 
